@@ -329,6 +329,7 @@ static Params make_group(unsigned F, unsigned G, size_t n, bool qsquare = false)
 	}
 	std::vector<std::pair<std::string, Z> > tab;
 	if (!qsquare) { if (!derive_g(P.p, P.q, P.k, P.g, tab)) { fprintf(stderr, "derive_g failed\n"); exit(4); } }
+	else if (derive_g(P.p, P.q, P.k, P.g, tab)) { /* the derived generator exists in this group as well: only gcd(q,k) = 1 fails */ }
 	else { // any element of order q: x^(k) has order dividing q only if ... use x^((p-1)/q)
 		Z e, x, pm1; mpz_sub_ui(pm1.w(), P.p, 1); mpz_divexact(e.w(), pm1, P.q);
 		do { gen_below(x.w(), P.p); mpz_powm(P.g.w(), x, e, P.p); } while (zcmpui(P.g, 1) <= 0);
@@ -399,7 +400,7 @@ static std::vector<Corr> catalogue(const Params &V, const Params *shortp, const 
 	{ Params P = V; P.G = V.G + 1 + (bits(V.q) - V.G); add("G=|q|+1", "q", P); }
 	{ Params P = V; P.F = bits(V.p) + 1; add("F=|p|+1", "p", P); }
 	// q divides k
-	if (qsq) { Params P = *qsq; P.F = V.F; P.G = V.G; add("q-divides-k", "k", P); }
+	if (qsq) { Params P = *qsq; P.F = V.F; P.G = V.G; add("q-divides-k", "p", P); }
 	// generators
 	auto gen_corr = [&](const std::string &f) {
 		if (f == "gs" && V.gs.empty()) return;
